@@ -287,7 +287,7 @@ Proof.
            apply Forall_app in Hok2. destruct Hok2 as [_ Hq]. inversion Hq as [|? ? _ Hq']. inversion Hq' as [|? ? [_ Hp2] _].
            cbn [fst] in Hp2. repeat split; try lia.
       * right. exists (s - c_rel c). split; [lia|]. split; [lia|]. split; [exact Ho|]. split; [exact Hol|].
-        intros _. unfold rem. cbn. rewrite app_length. cbn [length]. rewrite Hidx. lia.
+        intros _. rewrite Hrem0. unfold rem. cbn [c_vols c_idx]. rewrite app_length. cbn [length]. lia.
     + apply N.leb_gt in E. split; [|split; [reflexivity|split; [rewrite Hv, !app_length; reflexivity|]]].
       * constructor; cbn; [exact Hok2|exact Hd2|exact Hm|exact Hb|].
         left. exists pre, s, r2, post. cbn. repeat split; try lia.
@@ -297,4 +297,161 @@ Proof.
     assert (Hlen : N.of_nat (length (c_vols c)) <=? c_idx c = true) by (apply N.leb_le; exact Hidx).
     rewrite Hlen in H. inversion H; subst c' out. cbn. split; [exact HI0|]. split; [lia|]. split; [reflexivity|].
     left. split; [lia|]. split; reflexivity.
+Qed.
+
+(* ------------------------------------------------------------------ read_full: the fuel suffices *)
+Lemma read_full_loop_zero f c acc : read_full_loop f c 0 acc = Ok (c, acc).
+Proof. destruct f; reflexivity. Qed.
+
+Lemma read_full_loop_spec : forall fuel c D n acc,
+  Inv c D -> (rem c < fuel)%nat ->
+  exists c', read_full_loop fuel c n acc = Ok (c', acc ++ slice D (c_abs c) n) /\ Inv c' D /\
+             c_abs c' = c_abs c + N.of_nat (length (slice D (c_abs c) n)).
+Proof.
+  induction fuel as [|f IH]; intros c D n acc HI Hf; [lia|].
+  cbn [read_full_loop]. destruct (n =? 0) eqn:En.
+  - apply N.eqb_eq in En. subst n. rewrite slice_zero, app_nil_r. exists c. cbn. split; [reflexivity|]. split; [exact HI|lia].
+  - apply N.eqb_neq in En. destruct (chain_read c n) as [c1 out] eqn:Er.
+    destruct (chain_read_spec c D n c1 out HI Er) as (HI1 & Habs1 & Hlen1 & Hcase).
+    destruct Hcase as [(Hend & Ho & Hc)|(avail & Hav & Hfit & Ho & Hol & Hrem)].
+    + subst out c1. rewrite slice_past by lia. rewrite app_nil_r. exists c. cbn. split; [reflexivity|]. split; [exact HI|lia].
+    + destruct out as [|b out'] eqn:Eo.
+      { cbn in Hol. lia. }
+      rewrite <- Eo in *. clear Eo.
+      assert (Hsplit : slice D (c_abs c) n = out ++ slice D (c_abs c1) (n - N.of_nat (length out))).
+      { replace n with (N.min avail n + (n - N.min avail n)) at 1 by lia.
+        rewrite slice_split, <- Ho, Habs1, Hol. reflexivity. }
+      destruct (N.le_gt_cases avail n) as [Hle|Hgt].
+      * destruct (IH c1 D (n - N.of_nat (length out)) (acc ++ out) HI1) as (c2 & Hr & HI2 & Habs2).
+        { specialize (Hrem Hle). lia. }
+        exists c2. rewrite Hr. split; [rewrite Hsplit, app_assoc; reflexivity|]. split; [exact HI2|].
+        rewrite Habs2, Hsplit, app_length, Habs1. lia.
+      * replace (n - N.of_nat (length out)) with 0 in * by lia.
+        rewrite read_full_loop_zero. exists c1. rewrite Hsplit, slice_zero, !app_nil_r.
+        split; [reflexivity|]. split; [exact HI1|exact Habs1].
+Qed.
+
+Lemma read_full_spec c D n :
+  Inv c D ->
+  exists c', read_full c n = Ok (c', slice D (c_abs c) n) /\ Inv c' D /\
+             c_abs c' = c_abs c + N.of_nat (length (slice D (c_abs c) n)).
+Proof.
+  intros HI. unfold read_full.
+  destruct (read_full_loop_spec (S (S (length (c_vols c)))) c D n [] HI) as (c' & H1 & H2 & H3).
+  - unfold rem. lia.
+  - exists c'. split; [exact H1|]. split; assumption.
+Qed.
+
+(* ------------------------------------------------------------------ traces *)
+Lemma chain_run_refines : forall ops c D,
+  Inv c D -> exists rs, chain_run c ops = Ok rs /\ Refines D (c_abs c) ops rs.
+Proof.
+  induction ops as [|o ops IH]; intros c D HI.
+  - exists []. split; [reflexivity|constructor].
+  - cbn [chain_run]. destruct o as [n|n|s]; cbn [chain_step].
+    + destruct (chain_read c n) as [c1 out] eqn:Er.
+      destruct (chain_read_spec c D n c1 out HI Er) as (HI1 & Habs1 & _ & Hcase).
+      destruct (IH c1 D HI1) as (rs & Hr & Href). rewrite Hr. eexists. split; [reflexivity|].
+      rewrite Habs1 in Href.
+      destruct Hcase as [(Hend & Ho & Hc)|(avail & Hav & Hfit & Ho & Hol & Hrem)].
+      * subst out. apply Rf_read; [rewrite slice_zero; reflexivity|cbn; lia|intros _; right; lia|exact Href].
+      * apply Rf_read; [rewrite Hol; exact Ho|lia| |exact Href].
+        intros E. rewrite E in Hol. cbn in Hol. left. lia.
+    + destruct (read_full_spec c D n HI) as (c1 & Hr1 & HI1 & Habs1). rewrite Hr1.
+      destruct (IH c1 D HI1) as (rs & Hr & Href). rewrite Hr. eexists. split; [reflexivity|].
+      rewrite Habs1 in Href. apply Rf_full. exact Href.
+    + destruct (chain_seek c s) as [c1 p] eqn:Es.
+      destruct (chain_seek_spec c D s c1 p HI Es) as (HI1 & Hp & Habs1).
+      destruct (IH c1 D HI1) as (rs & Hr & Href). rewrite Hr. eexists. split; [reflexivity|].
+      rewrite Habs1, Hp in Href. rewrite Hp. apply Rf_seek. exact Href.
+Qed.
+
+Theorem chain_refines_concat datas ops :
+  N.of_nat (length (concat datas)) <= u64max ->
+  exists rs, chain_session datas ops = Ok rs /\ Refines (concat datas) 0 ops rs.
+Proof.
+  intros Hb. destruct (chain_new_inv datas Hb) as (c & Hn & HI & H0).
+  unfold chain_session. rewrite Hn. destruct (chain_run_refines ops c _ HI) as (rs & Hr & Href).
+  exists rs. rewrite H0 in Href. split; assumption.
+Qed.
+
+(* the only way `new` can fail is an overflow of the total size *)
+Lemma chain_new_overflow datas : u64max < N.of_nat (length (concat datas)) -> exists s, chain_new datas = Panic s.
+Proof.
+  intros Hb. unfold chain_new. set (vs := filter (fun sv => 0 <? fst sv) (map open_vol datas)).
+  pose proof (sz_total vs (open_filter_ok datas)) as Hs. unfold vs in Hs at 2. rewrite open_filter_concat in Hs.
+  unfold sz in Hs. assert (G : forall l acc, u64max < acc + fold_right N.add 0 l -> acc <= u64max -> exists s, sum_chk l acc = Panic s).
+  { induction l as [|x l IH]; intros acc H1 H2; cbn [sum_chk fold_right] in *; [lia|].
+    unfold add_chk. destruct (acc + x <=? u64max) eqn:E.
+    - apply N.leb_le in E. apply IH; lia.
+    - eexists; reflexivity. }
+  destruct (G (map fst vs) 0) as [s Hsx]; [lia|unfold u64max; lia|]. rewrite Hsx. exists s. reflexivity.
+Qed.
+
+(* ------------------------------------------------------------------ deterministic corollaries *)
+Lemma refines_full_reads D : forall ops p rs,
+  full_reads_only ops -> Refines D p ops rs -> rs = ref_run D p ops.
+Proof.
+  induction ops as [|o ops IH]; intros p rs Hf Hr; inversion Hr; subst; cbn [ref_run].
+  - reflexivity.
+  - inversion Hf as [|? ? Hx _]. destruct Hx.
+  - inversion Hf as [|? ? _ Hf']. f_equal. apply IH; assumption.
+  - inversion Hf as [|? ? _ Hf']. f_equal. apply IH; assumption.
+Qed.
+
+Lemma ref_run_refines D : forall ops p, Refines D p ops (ref_run D p ops).
+Proof.
+  induction ops as [|o ops IH]; intros p; cbn [ref_run]; [constructor|].
+  destruct o as [n|n|s].
+  - apply Rf_read.
+    + pose proof (slice_length D p n) as HL. rewrite HL.
+      destruct (N.le_gt_cases n (N.of_nat (length D) - p)) as [H|H].
+      * rewrite N.min_l by exact H. reflexivity.
+      * rewrite N.min_r by lia. unfold slice. rewrite !firstn_all2; try reflexivity; rewrite skipn_length; lia.
+    + rewrite slice_length. lia.
+    + intros E. pose proof (slice_length D p n) as HL. rewrite E in HL. cbn in HL. lia.
+    + apply IH.
+  - apply Rf_full. apply IH.
+  - apply Rf_seek. apply IH.
+Qed.
+
+Lemma ref_is_file D : forall ops p,
+  in_range D p ops -> map Some (ref_run D p ops) = map res_of_file (file_run D p ops).
+Proof.
+  induction ops as [|o ops IH]; intros p Hr; [reflexivity|].
+  destruct o as [n|n|s]; cbn [ref_run file_run in_range map res_of_file] in *.
+  - f_equal. apply IH. exact Hr.
+  - f_equal. apply IH. exact Hr.
+  - destruct Hr as [[H0 H1] Hr]. unfold ref_seek, clamp.
+    set (t := target (N.of_nat (length D)) p s) in *.
+    destruct (t <? 0)%Z eqn:E; [apply Z.ltb_lt in E; lia|].
+    replace (N.min (Z.to_N t) (N.of_nat (length D))) with (Z.to_N t) by lia.
+    cbn [map res_of_file]. f_equal. apply IH. exact Hr.
+Qed.
+
+(* the position reported by a seek is the position the next read delivers from *)
+Lemma refines_seek_then_read_full D n s : forall ops p rs,
+  Refines D p (ops ++ [Seek s; ReadFull n]) rs ->
+  exists pre q, rs = pre ++ [RPos q; RBytes (slice D q n)] /\ length pre = length ops.
+Proof.
+  induction ops as [|o ops IH]; intros p rs H.
+  - cbn [app] in H. inversion H as [| | |? ? ? ? H1]; subst. inversion H1 as [| |? ? ? ? H2|]; subst. inversion H2; subst.
+    exists [], (ref_seek D p s). split; reflexivity.
+  - cbn [app] in H. inversion H as [|? ? ? ? ? _ _ _ H1|? ? ? ? H1|? ? ? ? H1]; subst;
+      destruct (IH _ _ H1) as (pre & q & E & L); subst;
+      eexists (_ :: pre), q; (split; [reflexivity|cbn; lia]).
+Qed.
+
+Lemma refines_seek_then_read D n s : forall ops p rs,
+  Refines D p (ops ++ [Seek s; Read n]) rs ->
+  exists pre q out, rs = pre ++ [RPos q; RBytes out] /\ length pre = length ops /\
+     out = slice D q (N.of_nat (length out)) /\ N.of_nat (length out) <= n /\
+     (out = [] -> n = 0 \/ N.of_nat (length D) <= q).
+Proof.
+  induction ops as [|o ops IH]; intros p rs H.
+  - cbn [app] in H. inversion H as [| | |? ? ? ? H1]; subst. inversion H1 as [|? ? ? ? ? Ha Hb Hc H2| |]; subst. inversion H2; subst.
+    exists [], (ref_seek D p s), out. repeat split; assumption.
+  - cbn [app] in H. inversion H as [|? ? ? ? ? _ _ _ H1|? ? ? ? H1|? ? ? ? H1]; subst;
+      destruct (IH _ _ H1) as (pre & q & out' & E & L & R); subst;
+      eexists (_ :: pre), q, out'; (split; [reflexivity|split; [cbn; lia|exact R]]).
 Qed.
